@@ -400,3 +400,56 @@ def value_backpressure_rules(r, ctx):
     pb = rt.fn(name="push_bytes", self_adt=VB)
     seq = [c.name for c in pb.calls if c.args and describe_operand(pb, c.args[0]).endswith("current")]
     r.check(seq[:1] == ["clear"] and "put" in seq, "push_bytes/overwrite", where(pb), "push_bytes replaces the not-yet-sent value (%s)" % seq, "push_bytes does %s" % seq)
+
+
+def frame_lane_name(r, ctx):
+    """Every frame a remote receives is addressed with the lane it belongs to. RemoteSender keeps the lane name of the *next* frame as state
+    (`update_lane`), so every WriteTask built in Uplinks must be dominated by an update_lane on the same sender whose name is looked up for the lane the
+    action belongs to: the pushed lane id, the popped queue entry's id, or the special action's own lane. A site that skips it sends the frame under
+    the lane of the previous frame of that remote."""
+    rt = ctx.crate("swimos_runtime")
+    push, pop, ps = fns(ctx)
+    n = 0
+    for b, which in ((push, "push"), (ps, "push_special"), (pop, "replace_and_pop")):
+        news = [c for c in b.calls if c.name == "new" and "write_fut::WriteTask" in c.defpath]
+        ups = [c for c in b.calls if c.name == "update_lane"]
+        for k_, c in enumerate(sorted(news, key=lambda x: x.line)):
+            n += 1
+            snd = describe_operand(b, c.args[0])
+            act = describe_operand(b, c.args[2])
+            dom = [u for u in ups if b.dominates(u.block, c.block) and describe_operand(b, u.args[0]) == snd]
+            # the nearest one
+            dom.sort(key=lambda u: sum(1 for v in dom if b.dominates(v.block, u.block)))
+            key = "%s/frame#%d(%s)" % (which, k_, act.split("(")[0].replace("WriteAction::", "")[:24])
+            if not dom:
+                r.bad(key + "/lane-name-set", c.loc(), "a frame is written without setting the sender's lane name first: it goes out under the lane of the previous frame sent to that remote")
+                continue
+            nm = describe_operand(b, dom[-1].args[1])
+            if "Special(" in act:
+                inner = act[act.index("Special(") + len("Special("):-1]
+                ok = nm.startswith("lane_name(" + inner)
+                want = "the special action's own lane"
+            elif which == "push":
+                ok = "name_for(registry, lane_id)" in nm
+                want = "the lane the event was pushed for"
+            else:
+                ok = "name_for(registry, pop_front(self.write_queue)<Some>.0.1)" in nm
+                want = "the lane of the queue entry that was popped"
+            r.check(ok, key + "/lane-name-of-this-frame", dom[-1].loc(), "the frame is addressed with %s (%s)" % (want, nm[:70]),
+                    "the lane name set for this frame is `%s`, not %s: the remote receives the frame under another lane" % (nm[:80], want))
+            # no other update_lane between the chosen one and the frame
+            later = [u for u in ups if u is not dom[-1] and b.dominates(dom[-1].block, u.block) and b.dominates(u.block, c.block)]
+            r.check(not later, key + "/lane-name-not-overwritten", c.loc(), "nothing re-targets the sender between naming the lane and building the frame")
+    others = []
+    for b in rt.all_bodies():
+        if "::tests" in b.defpath:
+            continue
+        for c in b.calls:
+            if c.name == "new" and "write_fut::WriteTask" in c.defpath and "uplink::Uplinks" not in b.defpath:
+                others.append(b.defpath)
+            if c.name == "update_lane" and "uplink::Uplinks" not in b.defpath:
+                others.append(b.defpath)
+    r.check(not others, "frames-built-only-in-Uplinks", where(push), "WriteTask::new and update_lane are used only inside Uplinks (%d frame sites)" % n, "frames are also built in %s" % sorted(set(others)))
+    if n < 7:
+        raise AnchorMissing("expected the 7 frame construction sites of Uplinks (found %d)" % n)
+
